@@ -79,6 +79,10 @@ def sample(rng):
     DC1, DC2 = round(rng.uniform(0.5, 2), 4), round(rng.uniform(0.5, 2), 4)
     a1 = round(rng.uniform(0, 0.6) * r1 * DC1, 4); a2 = round(rng.uniform(0, 0.6) * r2 * DC2, 4); tdd = round(rng.uniform(-1, 1), 4)
     pd = []
+    # one point in each of the three regions in every case: inside the detonator circle (value t_d), in the inner and in the outer explosive
+    for rad in (r1 * rng.uniform(0.1, 0.9), r1 + (r2 - r1) * rng.uniform(0.1, 0.9), r2 * rng.uniform(1.1, 1.6)):
+        ang = rng.uniform(0, 2 * math.pi)
+        pd.append([round(rad * math.cos(ang), 4), round(rad * math.sin(ang), 4)])
     while len(pd) < 6:
         x, y = round(rng.uniform(-1.6, 1.6) * r2, 4), round(rng.uniform(-1.6, 1.6) * r2, 4)
         rr = math.hypot(x, y)
